@@ -90,6 +90,9 @@ func (h *evHandler) HandleEvent(p api.EventPayload) {
 		switch h.body.Kind {
 		case "unsubself":
 			b.unsub(h.name)
+		case "resub":
+			b.unsub(h.name)
+			b.sub(h.name)
 		case "unsub":
 			b.unsub(h.body.Arg)
 		case "sub":
@@ -301,7 +304,57 @@ func eventsStress(args []string) {
 		line.Calls = calls
 		must(enc.Encode(line))
 		if line.Hung {
-			break
+			return
+		}
+	}
+	// re-entrant rounds: handlers of both levels (un)subscribe from inside while several goroutines publish; the
+	// deliveries depend on the interleaving - required is that nothing blocks
+	for r := 0; r < (*rounds+1)/2; r++ {
+		bus := &evBus{handlers: map[string]*evHandler{}}
+		bodies := map[string]evBody{"c1": {Kind: "resub"}, "c2": {Kind: "unsub", Arg: "a3"}, "a1": {Kind: "resub"}, "a2": {Kind: "publish"}, "a3": {Kind: "sub", Arg: "a3"}}
+		for h, b := range bodies {
+			bus.handlers[h] = &evHandler{bus: bus, name: h, body: b}
+			bus.sub(h)
+		}
+		var wg sync.WaitGroup
+		for g := 0; g < 4; g++ {
+			wg.Add(1)
+			go func(g int) {
+				defer wg.Done()
+				for i := 0; i < 30; i++ {
+					spine.Events.Publish(api.EventPayload{Ski: fmt.Sprintf("x%dg%di%d", r, g, i)})
+					if i%5 == g {
+						bus.sub("a3")
+					}
+				}
+			}(g)
+		}
+		doneC := make(chan struct{})
+		go func() { wg.Wait(); close(doneC) }()
+		line := EvConcLine{Dels: []evDel{}, Calls: []EvCall{}}
+		select {
+		case <-doneC:
+		case <-time.After(20 * time.Second):
+			line.Hung = true
+		}
+		if !line.Hung {
+			evQuiesce(base)
+			unsubDone := make(chan struct{})
+			go func() {
+				for h := range bodies {
+					bus.unsub(h)
+				}
+				close(unsubDone)
+			}()
+			select {
+			case <-unsubDone:
+			case <-time.After(5 * time.Second):
+				line.Hung = true
+			}
+		}
+		must(enc.Encode(line))
+		if line.Hung {
+			return
 		}
 	}
 }
